@@ -210,13 +210,14 @@ package coroutines
 //@ site loop 3 batch assert decodedT.Mesg.Type != message.Notify && !(err == nil && completion.Sender.Success) ==> cmd.UpdateTask.State == task.Init && cmd.UpdateTask.Attempt == t.Attempt + 1
 
 //@ func SchedulePromises$1
-//@ props C01 C08 C10
+//@ props C01 C08 C10 C20
 //@ serves C06
 //@ ghostdb coroutine
 //@ nopanic C13
 //@ overflow C10
 //@ requires c != nil && config != nil && tags != nil
 //@ site call createPromise assert r.NextRunTime <= now() && promiseCmd != nil && promiseCmd.Timeout == r.PromiseTimeout + r.NextRunTime && promiseCmd.Param.Data == r.PromiseParamData && promiseCmd.CreatedOn == now() && taskCmd == nil
+//@ site call createPromise assert promiseCmd.Id == tmplsubst(r.PromiseId, "id", r.Id, "timestamp", sprintf("%d", r.NextRunTime))
 //@ site call createPromise assert promiseCmd.Tags["resonate:schedule"] == r.Id && promiseCmd.Tags["resonate:invocation"] == "true"
 //@ site call createPromise assert len(additionalCmds) == 1 && additionalCmds[0].Kind == t_aio.UpdateSchedule && additionalCmds[0].UpdateSchedule != nil && additionalCmds[0].UpdateSchedule.Id == r.Id && additionalCmds[0].UpdateSchedule.LastRunTime != nil && *additionalCmds[0].UpdateSchedule.LastRunTime == r.NextRunTime && additionalCmds[0].UpdateSchedule.NextRunTime == cronnext(r.Cron, r.NextRunTime)
 
